@@ -89,6 +89,11 @@ def gen_label_program(rnd, arith=False):
             rd, rs = progs.creg(rnd), progs.creg(rnd)
             body.append(L('    addi %s, %s, %s' % (progs.reg_txt(rnd, rd), progs.reg_txt(rnd, rs), txt), 'immref', 'addi',
                           [rd, rs, kind, base], lab))
+        elif k < 0.61:
+            # a hand-written compressed jump / branch takes its operand as a plain value: a bare label there is the label's
+            # address (not a distance), like in any other immediate
+            form = rnd.choice(['c.j %s', 'c.jal %s', 'c.beqz x8, %s', 'c.bnez x15, %s'])
+            body.append(L('    ' + form % lab, 'cimmref', form.split()[0], ['bare', 0], lab))
         elif k < 0.7:
             name, ops = progs.gen_instr(rnd)
             body.append(L(progs.line_text(rnd, name, ops), 'instr', name, ops))
@@ -120,13 +125,21 @@ def gen_label_program(rnd, arith=False):
         for _ in range(rnd.randrange(1, 3)):
             nm = rnd.choice(['call', 'tail'])
             body.insert(rnd.randrange(0, len(body) + 1), L('    %s FAR0' % nm, 'pjump', nm, [], 'FAR0'))
+    alias_of = {}
+    if rnd.random() < 0.3 and len(labels) >= 2:
+        alias_of[labels[-1]] = labels[0]          # two names for one address: both move together, always
     for lab in labels:
+        if lab in alias_of:
+            continue
         pos = rnd.randrange(0, len(body) + 1)
         if rnd.random() < 0.4:
             hot = [i + 1 for i, l in enumerate(body) if l.kind in ('pjump', 'string', 'align', 'unary', 'p0')]
             if hot:
                 pos = rnd.choice(hot)           # directly behind an item whose size is delicate
         body.insert(pos, L('%s:' % lab, 'label', lab))
+    for lab, other in alias_of.items():
+        at = [i for i, l in enumerate(body) if l.kind == 'label' and l.name == other][0]
+        body.insert(at + rnd.choice([0, 1]), L('%s:' % lab, 'label', lab))
     if far:
         body = [L('FAR0:', 'label', 'FAR0'), L('    align 0x200000', 'align', 'align', [0x200000])] + body
     return body
@@ -171,6 +184,8 @@ def evaluate(asm, lines, idx=0):
             elif ln.kind in ('liref', 'liarith'):
                 nchunks = len(lay.by_line.get(i, []))
                 plan.append((i, ln, off, b, batch.ask('run %s %d %d 5 %d' % (b.hex() or '00', off, off, nchunks))))
+            elif ln.kind == 'cimmref':
+                plan.append((i, ln, off, b, batch.ask('dec16x %d' % int.from_bytes(b[:2], 'little'))))
             elif ln.kind in ('hiref', 'loref', 'immref'):
                 if len(b) == 4:
                     plan.append((i, ln, off, b, batch.ask('dec32 %d' % int.from_bytes(b, 'little'))))
@@ -195,6 +210,12 @@ def evaluate(asm, lines, idx=0):
                 if rd != 0 and regs[rd] != want % M32:
                     out['problems'].append(('C08', compress, 'line {} {!r} at offset {} = {}: loads {} but the value from the final offset of {} ({}) is {}'.format(
                         i, ln.text.strip(), off, b.hex(), regs[rd], ln.label, lo, want % M32), ln.text))
+            elif ln.kind == 'cimmref':
+                d = rep.split()
+                imm = int(d[-1]) if d and d[0] in ('jal', 'branch') else None
+                if len(b) != 2 or imm != lo:
+                    out['problems'].append(('C08', compress, 'line {} {!r} at offset {} = {}: encodes {} but the address of {} is {}'.format(
+                        i, ln.text.strip(), off, b.hex(), rep, ln.label, lo), ln.text))
             else:
                 d = rep.split()
                 if ln.kind == 'hiref':
